@@ -1145,6 +1145,13 @@ STATE_SWITCH:
                     if (data[pos] == CR) {
                         // We have a CR byte.
 
+                        // A CR set aside at the end of the previous input chunk is followed
+                        // by this CR, not by LF, so it was part data; release it.
+                        if (parser->cr_aside) {
+                            parser->handle_data(parser, (unsigned char *) &"\r", 1, /* not a line */ 0);
+                            parser->cr_aside = 0;
+                        }
+
                         // Is this CR the last byte in the input buffer?
                         if (pos + 1 == len) {
                             // We have CR as the last byte in input. We are going to process
